@@ -154,6 +154,7 @@ def _run(ctx, n, nops, rep):
     # the same property through the tool as a user runs it: fresh `python -m replicat` processes, a repository on disk, real faults
     cli_hist.run_scenarios(ctx, rep, {'plain': ctx.scale(3, 30), 'oserror': ctx.scale(4, 40)}, CLI_MINE)
     cli_hist.refused_removal_probe(ctx, rep, CLI_MINE)
+    cli_hist.scan_fault_probe(ctx, rep, CLI_MINE)
     # and over the remote adapters (B2 by bucket name and by bucket id, S3-compatible) against in-memory fake services
     remote_hist.remote_probe(ctx, rep, ('exception', 'restore_mismatch', 'referenced_chunk_missing'))
 
